@@ -138,7 +138,7 @@ def _rand_cfg(rng, n):
 
 def gen_random(seed, tier):
     rng = random.Random(seed)
-    nrand = 8000 if tier == "quick" else 500000
+    nrand = 6000 if tier == "quick" else 500000
     pool = (1, 2, -3, 7, 0)
     for i in range(nrand):
         d = rng.choice([0, 0, 1])
@@ -225,6 +225,7 @@ def gen_wide_small(tier):
     fibs = list(H.all_leaf_fibers(n, [0, 1]))
     q = tier == "quick"
     some = fibs[::3] if q else fibs
+    roots_pre = [[[0, a], [2, b]] for a in SUBPOOL for b in SUBPOOL][::3 if q else 1]
     # negative steps (descending dense traversal; Ref inserts at the sorted position all the same)
     for t in (fibs[::2] if q else fibs):
         for (s, e) in ((n, -1), (n + 1, 0), (1, 1), (0, 3), (2, -2)):
@@ -247,6 +248,21 @@ def gen_wide_small(tier):
         for fmt in ("C", "U"):
             for op in ("shape", "ashape", "shaperef", "ashaperef", "active", "iter", "occ"):
                 yield _root_case(op, t, 0, None, [fmt], sp=None, old=OLD_SAVED)
+    # tensor-level entry points next to the fiber-level ones: `for c, p in tensor`, `reversed(tensor)`
+    for t in fibs:
+        for fmt in ("C", "U"):
+            for tshape in (None, [4], [2]):
+                for active in (None, [1, 3]):
+                    for via in ("tensor", "fiber"):
+                        yield _root_case("iter", t, 0, tshape, [fmt], sp=None, old=OLD_SAVED, via=via, active=active)
+            for via in ("tensor", "fiber"):
+                yield _root_case("reversed", t, 0, None, [fmt], via=via)
+        yield _base("reversed", t)
+    for root in roots_pre:
+        for fmts in (["C", "C"], ["U", "C"], ["U", "U"], ["C", "U"]):
+            for tshape in (None, [7, 8]):
+                yield _root_case("iter", root, 1, tshape, fmts, sp=None, old=OLD_SAVED, via="tensor")
+            yield _root_case("reversed", root, 1, None, fmts, via="tensor")
     # fibers of the second rank of a ragged 2-rank tensor, extents declared or estimated, every C/U mix
     roots = [[[0, a], [2, b]] for a in SUBPOOL for b in SUBPOOL] + \
             [[[0, a], [1, b], [5, c]] for a in SUBPOOL[:3] for b in SUBPOOL[3:] for c in SUBPOOL[1:4]]
@@ -406,7 +422,12 @@ def gen_random_wide(seed, tier):
         if fam == "co" and mode == "sub":
             fam = "shape"
         if fam == "range":
-            yield _base(rng.choice(RANGE_OPS), t, s=ob(), e=ob(), sp=sp, old=OLD_SAVED, **extra)
+            op = rng.choice(RANGE_OPS + ["reversed"])
+            if mode == "root" and op in ("iter", "reversed") and rng.random() < 0.6:
+                extra.pop("spbox", None)
+                yield _base(op, t, sp=None, old=OLD_SAVED, via="tensor", **extra)
+            else:
+                yield _base(op, t, s=ob(), e=ob(), sp=sp, old=OLD_SAVED, **extra)
         elif fam == "shape":
             yield _base(rng.choice(SHAPE_OPS), t, s=rb(), e=rb(), step=rng.choice([1, 2, 3, -1, -1, -2, -3]), **extra)
         elif fam == "co":
@@ -483,7 +504,7 @@ def gen_seq_small(tier):
             for grow in grows:
                 for second in SEQ_SECOND:
                     k += 1
-                    if tier == "quick" and k % 3:
+                    if tier == "quick" and k % 4:
                         continue
                     for fmt, shape in (("C", None), ("U", None), ("C", 2)):
                         if fmt == "U" and k % 2:
@@ -604,6 +625,7 @@ def _build(case, tree):
         if sub is not None:
             target = target.payloads[sub]
         target.setActive(act)
+        _TENSOR[id(target)] = t
         return target, t
     F = ft.Fiber
     coords = [c for c, _ in tree]
@@ -617,6 +639,18 @@ def _build(case, tree):
     else:
         f = F(coords, payloads, default=dflt, shape=shape, rank_attrs=_RankAttrs()(fmt=fmt), active_range=act)
     return f, None
+
+
+_TENSOR = {}     # id(root fiber) -> its Tensor, for the tensor-level entry points (`for c, p in tensor`)
+
+
+def _entry(case, f):
+    """the object the traversal is started from: the fiber, or the Tensor that forwards to its root"""
+    if case.get("via") == "tensor":
+        t = _TENSOR[id(f)]
+        assert t.getRoot() is f
+        return t
+    return f
 
 
 def _rows(case, fiber, ys):
@@ -692,12 +726,17 @@ def _traverse(case, op, fibers, side):
                 it = f.iterOccupancy(start_pos=spa)
             elif op == "active":
                 it = f.iterActive(start_pos=spa)
+            elif case.get("via") == "tensor":
+                it = iter(_entry(case, f))          # Tensor.__iter__ takes no start position
             else:
                 it = f.__iter__(start_pos=spa)
             ys = _pairs(it)
             impl["y1"] = _rows(case, f, ys)
             impl["saved"] = ft.Payload.get(f.getSavedPos())
             _fresh_absent(side, _objs(f), [p for _, p in ys])
+        elif op == "reversed":
+            ys = _pairs(reversed(_entry(case, f)))
+            impl["y1"] = _rows(case, f, ys)
         elif op in SHAPE_OPS:
             s, e, step = case.get("s"), case.get("e"), case.get("step", 1)
             it = {"rshape": lambda: f.iterRangeShape(s, e, step), "shape": f.iterShape, "ashape": f.iterActiveShape,
